@@ -62,7 +62,9 @@ GenInit ==
           THEN /\ proof = [i \in 1..n |-> None]
                /\ cert \in CanonLists(n) \cup (IF n \in NsPerm THEN PermLists(n) ELSE {})
           ELSE cert = <<>> /\ proof \in CanonVecs(n)
-Done == /\ done /\ Len(hist) = 1
+\* a vector-form table case is a history on one context: the verification for d1, then the same proof presented for d2
+Steps == IF Form = "vector" /\ Family = "table" THEN 2 ELSE 1
+Done == /\ done /\ Len(hist) = Steps
         /\ PrintT(<<"B", ToJson(hist)>>)
         /\ hist' = Append(hist, [op |-> "done"]) /\ UNCHANGED <<ctx, n, cert, proof, done>>
 GenNext == \/ Family = "walk" /\ Form = "list" /\ \E s \in Sig(n) : AppendItem(s)
@@ -70,6 +72,7 @@ GenNext == \/ Family = "walk" /\ Form = "list" /\ \E s \in Sig(n) : AppendItem(s
            \/ Form = "list" /\ VerifyList
            \/ Form = "list" /\ Family = "table" /\ \E d \in {"trunc", "scalar", "baditem"} : DecodeGarbageList(d)
            \/ Form = "vector" /\ VerifyProof
+           \/ Form = "vector" /\ Family = "table" /\ Reverify("d2")
            \/ Form = "part" /\ \E i \in 0..(n + 1), s \in Sig(n) : VerifyPart(i, s)
            \/ Form = "part" /\ \E w \in 0..n : NewPart(w)
            \/ Form = "part" /\ \E k \in {"proof", "part"}, d \in {"trunc", "scalar", "badsig"} : DecodeGarbage(k, d)
